@@ -311,6 +311,28 @@ func (tree *HTree) remove(ki *KeyInfo, oldPos Position) {
 	tree.remvoeFromLeaf(&tree.ni, ki, oldPos)
 }
 
+// updatePos repoints ki from oldPos to newPos, atomically and only if the tree still points
+// at oldPos (used by GC: a record being relocated may have been overwritten meanwhile).
+// Version and value hash stay as they are, so node summaries are unaffected.
+func (tree *HTree) updatePos(ki *KeyInfo, oldPos, newPos Position) (found, updated bool) {
+	tree.Lock()
+	defer tree.Unlock()
+	var req HTreeReq
+	req.ki = ki
+	ni := &tree.ni
+	tree.getLeaf(ki, ni)
+	if !tree.leafs[ni.offset].Get(&req) {
+		return false, false
+	}
+	if req.item.Pos != oldPos {
+		return true, false
+	}
+	req.item.Keyhash = ki.KeyHash
+	req.item.Pos = newPos
+	tree.leafs[ni.offset].Set(&req)
+	return true, true
+}
+
 func (tree *HTree) get(ki *KeyInfo) (meta *Meta, pos Position, found bool) {
 	var req HTreeReq
 	req.ki = ki
